@@ -403,6 +403,10 @@ def C11(tier):
     # two candidates withdrawn at once (adjacent on some ballots)
     for rule, opts in ([('wigm', grid.FX2), ('scotland', {}), ('meek', FX3), ('cfer', {})] if quick else RULE_CFGS):
         jobs.append(djob('withdraw', rule, opts, 4, 1, 3, 4, w=[2, 3], budget=600 if quick else 1500, weight=3))
+    # a withdrawn candidate inside an equal-rank group
+    for rule, opts in [('meek', FX3), ('warren', FX3), ('scotland', {}), ('wigm', grid.FX2)]:
+        jobs.append(djob('withdraw', rule, opts, 3, 1, 2, 5, w=2, equal=['1=2 3', '2=3 1', '1 2=3', '3 1=2'], budget=600, weight=1))
+    jobs.append(djob('withdraw', 'meek', FX3, 4, 2, 1, 4, w=2, equal=['1=2 3', '2=3 4', '1 2=4', '3=4 2=1'], budget=600 if quick else 1500, weight=2))
     # a three-way tie decided by an earlier stage: four candidates
     jobs.append(djob('perm', 'scotland', {}, 4, 2, 2, 5, symtie=True, perm_limit=4 if quick else 12, budget=600 if quick else 1500, weight=8))
     if not quick:
